@@ -14,7 +14,7 @@ def distance_to_similarity(D, r=None, a=None, method='exponential', return_param
       r is max(D) if not given
     - Reciprocal: 1 / (r + D*a)
       r is 1 if not given
-    - Reverse: r - D
+    - Reverse: (r - D) / r
       r is min(D) + max(D) if not given
 
     All of these methods are monotonically decreasing transformations. The order of the
